@@ -132,8 +132,8 @@ def partial_transpose(
         dim = np.array([[sqrt_rho_dims[0], sqrt_rho_dims[0]], [sqrt_rho_dims[1], sqrt_rho_dims[1]]])
     if isinstance(dim, (int, float, np.integer)):
         dim = np.array([dim])
-    if isinstance(dim, list):
-        dim = np.array(dim)
+    # Always work on a copy of `dim`: the dimensions of the transposed subsystems are exchanged in place below.
+    dim = np.array(dim)
     if isinstance(sys, list):
         sys = np.array(sys)
     if isinstance(sys, int):
